@@ -78,14 +78,17 @@ def main():
                                       witness=None if ok else str(detail)[:300]))
         for bid, desc, bound, fn in getattr(m, 'BOUNDED', []):
             wobj = None
+            stats = None
             try:
                 r = fn(a.budget, rng)
                 ok, cases, detail = r[:3]
                 if len(r) > 3:
                     wobj = r[3]
+                if len(r) > 4:
+                    stats = r[4]
             except Exception as e:
                 ok, cases, detail = False, 0, 'raised %s: %s' % (type(e).__name__, traceback.format_exc()[-400:])
-            out['bounded'].append(dict(id=bid, desc=desc, bound=bound, ok=bool(ok), cases=cases, detail=str(detail)[:500],
+            out['bounded'].append(dict(id=bid, desc=desc, bound=bound, ok=bool(ok), cases=cases, detail=str(detail)[:500], stats=stats,
                                        witness=None if ok else (wobj if wobj is not None else str(detail)[:300])))
         evals = {}
         per = max(0.5, a.budget / max(1, len(contracts)))
